@@ -1,11 +1,11 @@
 package props
 
 import (
-	"regexp"
 	"fmt"
 	"go/ast"
 	"go/token"
 	"go/types"
+	"regexp"
 	"sort"
 	"strings"
 
@@ -187,6 +187,15 @@ func c20Total(p *core.Program, r *core.Report, t *types.Named) {
 			},
 			Classify: func(n ast.Node) []paths.Event {
 				var out []paths.Event
+				// (inlined helper bodies are rewritten copies: recognise v, ok := x.(T) on the copy too)
+				ast.Inspect(n, func(m ast.Node) bool {
+					if as, ok := m.(*ast.AssignStmt); ok && len(as.Lhs) == 2 && len(as.Rhs) == 1 {
+						if ta, ok := ast.Unparen(as.Rhs[0]).(*ast.TypeAssertExpr); ok {
+							commaOK[ta] = true
+						}
+					}
+					return true
+				})
 				ast.Inspect(n, func(m ast.Node) bool {
 					ta, ok := m.(*ast.TypeAssertExpr)
 					if !ok || ta.Type == nil || commaOK[ta] {
@@ -262,33 +271,62 @@ func c20Mixed(p *core.Program, r *core.Report, t *types.Named) {
 	pos := p.Pos(fi.Decl.Pos())
 	var found []string
 	okAll := true
-	ast.Inspect(fi.Decl.Body, func(n ast.Node) bool {
-		rs, ok := n.(*ast.ReturnStmt)
-		if !ok || len(rs.Results) != 1 {
-			return true
+	// every return statement of CompareTo, including those of unexported helpers it returns through
+	// (compareMixed(this.GetValueType(), o)), with the helper's parameters replaced by the arguments
+	var rets []*ast.ReturnStmt
+	seenRet := map[string]bool{}
+	in := newInliner(p, fi, nil)
+	ps, _ := paths.Enumerate(fi.Decl.Body, paths.Config{Info: info, Inline: in.Body, Expand: in.Expand})
+	for _, pa := range ps {
+		for _, e := range pa {
+			if e.Kind == "RET" {
+				if rs, ok := e.Node.(*ast.ReturnStmt); ok {
+					k := fmt.Sprintf("%d|%s", rs.Pos(), types.ExprString(&ast.CallExpr{Fun: ast.NewIdent("r"), Args: rs.Results}))
+					if !seenRet[k] {
+						seenRet[k] = true
+						rets = append(rets, rs)
+					}
+				}
+			}
 		}
-		s := stripSpaces(types.ExprString(rs.Results[0]))
-		if strings.Count(s, "GetValueType()") < 2 {
-			return true
-		}
-		found = append(found, s)
-		// locate the subtraction
-		var sub *ast.BinaryExpr
-		ast.Inspect(rs.Results[0], func(m ast.Node) bool {
-			if be, ok := m.(*ast.BinaryExpr); ok && be.Op == token.SUB && sub == nil {
-				sub = be
+	}
+	if len(rets) == 0 {
+		ast.Inspect(fi.Decl.Body, func(n ast.Node) bool {
+			if rs, ok := n.(*ast.ReturnStmt); ok {
+				rets = append(rets, rs)
 			}
 			return true
 		})
-		if sub == nil {
-			okAll = false
+	}
+	for _, rs0 := range rets {
+		func(n ast.Node) bool {
+			rs, ok := n.(*ast.ReturnStmt)
+			if !ok || len(rs.Results) != 1 {
+				return true
+			}
+			s := stripSpaces(types.ExprString(rs.Results[0]))
+			if strings.Count(s, "GetValueType()") < 2 {
+				return true
+			}
+			found = append(found, s)
+			// locate the subtraction
+			var sub *ast.BinaryExpr
+			ast.Inspect(rs.Results[0], func(m ast.Node) bool {
+				if be, ok := m.(*ast.BinaryExpr); ok && be.Op == token.SUB && sub == nil {
+					sub = be
+				}
+				return true
+			})
+			if sub == nil {
+				okAll = false
+				return true
+			}
+			if b, ok := info.TypeOf(sub).Underlying().(*types.Basic); !ok || b.Info()&types.IsUnsigned != 0 {
+				okAll = false
+			}
 			return true
-		}
-		if b, ok := info.TypeOf(sub).Underlying().(*types.Basic); !ok || b.Info()&types.IsUnsigned != 0 {
-			okAll = false
-		}
-		return true
-	})
+		}(rs0)
+	}
 	if len(found) == 0 {
 		r.Viol("C20.mixed", c, pos, "no type-code difference for operands of different types: every other type compares the same way (comparison does not reverse sign when swapped)")
 		return
@@ -302,14 +340,7 @@ func c20Same(p *core.Program, r *core.Report, t *types.Named) {
 	if cmp == nil || eq == nil || cmp.Decl.Body == nil || eq.Decl.Body == nil {
 		return
 	}
-	hasLoop := false
-	ast.Inspect(cmp.Decl.Body, func(n ast.Node) bool {
-		switch n.(type) {
-		case *ast.ForStmt, *ast.RangeStmt:
-			hasLoop = true
-		}
-		return true
-	})
+	hasLoop := hasLoopDeep(p, cmp, 0) || hasLoopDeep(p, eq, 0)
 	c := "lang/value." + t.Obj().Name() + " same-type order"
 	pos := p.Pos(cmp.Decl.Pos())
 	if hasLoop {
@@ -336,6 +367,12 @@ func c20Same(p *core.Program, r *core.Report, t *types.Named) {
 		})
 		keys := map[string]bool{}
 		side := func(e ast.Expr) (string, string) {
+			// a hoisted operand (other := o.(*T).Val) stands for what it was defined as
+			if id, ok := ast.Unparen(e).(*ast.Ident); ok {
+				if d := expandLocals(info, fi.Decl.Body, id); d != ast.Expr(id) {
+					e = d
+				}
+			}
 			sel, ok := ast.Unparen(e).(*ast.SelectorExpr)
 			if !ok {
 				return "", ""
@@ -372,7 +409,7 @@ func c20Same(p *core.Program, r *core.Report, t *types.Named) {
 			ks = append(ks, k)
 		}
 		sort.Strings(ks)
-		ev := &ordEval{info: info, side: side, ints: map[types.Object]int64{}, bools: map[string]bool{}}
+		ev := &ordEval{info: info, side: side, ints: map[types.Object]int64{}, bools: map[string]bool{}, inl: newInliner(p, fi, nil)}
 		for _, v := range []string{other + "!=nil", other + "==nil"} {
 			ev.bools[v] = v == other+"!=nil"
 		}
@@ -645,15 +682,7 @@ func c20Sizes(p *core.Program, r *core.Report, t *types.Named) {
 		if fi.Decl.Type.Params == nil || len(fi.Decl.Type.Params.List) == 0 || len(fi.Decl.Type.Params.List[0].Names) == 0 {
 			continue
 		}
-		hasLoop := false
-		ast.Inspect(fi.Decl.Body, func(n ast.Node) bool {
-			switch n.(type) {
-			case *ast.ForStmt, *ast.RangeStmt:
-				hasLoop = true
-			}
-			return true
-		})
-		if !hasLoop {
+		if !hasLoopDeep(p, fi, 0) {
 			continue
 		}
 		info := fi.Pkg.TypesInfo
@@ -727,10 +756,16 @@ func c20Sizes(p *core.Program, r *core.Report, t *types.Named) {
 			continue
 		}
 		in := newInliner(p, fi, nil)
-		ps, over := paths.Enumerate(fi.Decl.Body, paths.Config{Info: info, Expand: in.Expand,
+		ps, over := paths.Enumerate(fi.Decl.Body, paths.Config{Info: info, Expand: in.Expand, Inline: in.Body,
 			Cond: func(c ast.Expr, v bool) *paths.Event {
 				arg := ""
 				if be, ok := ast.Unparen(c).(*ast.BinaryExpr); ok {
+					// d := own - other; d != 0  is the comparison own != other
+					if tv, ok := info.Types[be.Y]; ok && tv.Value != nil && tv.Value.String() == "0" {
+						if sub, ok := ast.Unparen(stripConvs(info, expandLocals(info, fi.Decl.Body, be.X))).(*ast.BinaryExpr); ok && sub.Op == token.SUB {
+							be = &ast.BinaryExpr{X: sub.X, Op: be.Op, Y: sub.Y}
+						}
+					}
 					l, rr := side(be.X), side(be.Y)
 					op := be.Op
 					if l == 2 && rr == 1 {
@@ -800,4 +835,37 @@ func c20Sizes(p *core.Program, r *core.Report, t *types.Named) {
 func isBasicType(t types.Type) bool {
 	_, ok := t.Underlying().(*types.Basic)
 	return ok
+}
+
+// hasLoopDeep: the function, or an unexported helper of its package that it calls (depth 3), contains a loop.
+func hasLoopDeep(p *core.Program, fi *core.FuncInfo, depth int) bool {
+	found := false
+	info := fi.Pkg.TypesInfo
+	ast.Inspect(fi.Decl.Body, func(n ast.Node) bool {
+		switch v := n.(type) {
+		case *ast.ForStmt, *ast.RangeStmt:
+			found = true
+		case *ast.CallExpr:
+			if depth >= 3 || found {
+				return true
+			}
+			var id *ast.Ident
+			switch f := ast.Unparen(v.Fun).(type) {
+			case *ast.Ident:
+				id = f
+			case *ast.SelectorExpr:
+				id = f.Sel
+			}
+			if id == nil {
+				return true
+			}
+			if fn, _ := info.Uses[id].(*types.Func); fn != nil && !fn.Exported() && fn.Pkg() == fi.Obj.Pkg() {
+				if cfi := p.FuncOf(fn); cfi != nil && cfi != fi && cfi.Decl.Body != nil && hasLoopDeep(p, cfi, depth+1) {
+					found = true
+				}
+			}
+		}
+		return true
+	})
+	return found
 }
